@@ -334,7 +334,9 @@ class ResolverError(GraphQLLocatedError):
         extensions: Optional[Mapping[str, Any]] = None,
     ):
         super().__init__(message, nodes, path)
-        self.extensions = extensions
+        if extensions is not None or not hasattr(self, "extensions"):
+            # Subclasses can expose class level extensions.
+            self.extensions = extensions
 
     def to_dict(self) -> Dict[str, Any]:
         dict_ = super().to_dict()
